@@ -28,6 +28,8 @@ pub struct HistCfg {
   pub bu_pre: bool,
   /// also report `dirty ∪ {one unchanged resource}`
   pub bu_over_report: bool,
+  /// also sessions that run the bottom-up build twice (same report; the second build must find nothing to do)
+  pub bu_twice: bool,
   pub set_fail: bool,
   /// crash decorations: number of crashes allowed per history
   pub crashes: usize,
@@ -163,6 +165,10 @@ fn enabled_events(prog: &Prog, cfg: &HistCfg, node: &NodeRec) -> Vec<Event> {
     }
   }
   for roots in sequences(prog.n_tasks(), cfg.max_roots) { evs.push(Event::TopDown(roots)); }
+  if cfg.max_roots >= 2 {
+    // the same root twice in one session (the session-level "already consistent" path)
+    for t in 0..prog.n_tasks() as Tid { evs.push(Event::TopDown(vec![t, t])); }
+  }
   if cfg.bottom_up && !node.known.is_empty() {
     let dirty: Vec<Rid> = (0..prog.n_res).filter(|r| node.dirty & (1 << r) != 0).collect();
     let mut reports: Vec<Vec<Rid>> = Vec::new();
@@ -174,12 +180,13 @@ fn enabled_events(prog: &Prog, cfg: &HistCfg, node: &NodeRec) -> Vec<Event> {
       }
     }
     for rep in reports {
-      evs.push(Event::BottomUp { pre: vec![], reported: rep.clone(), then: vec![] });
+      evs.push(Event::BottomUp { pre: vec![], reported: rep.clone(), then: vec![], builds: 1 });
+      if cfg.bu_twice { evs.push(Event::BottomUp { pre: vec![], reported: rep.clone(), then: vec![], builds: 2 }); }
       if cfg.bu_then {
-        for t in 0..prog.n_tasks() as Tid { evs.push(Event::BottomUp { pre: vec![], reported: rep.clone(), then: vec![t] }); }
+        for t in 0..prog.n_tasks() as Tid { evs.push(Event::BottomUp { pre: vec![], reported: rep.clone(), then: vec![t], builds: 1 }); }
       }
       if cfg.bu_pre {
-        for t in 0..prog.n_tasks() as Tid { evs.push(Event::BottomUp { pre: vec![t], reported: rep.clone(), then: vec![] }); }
+        for t in 0..prog.n_tasks() as Tid { evs.push(Event::BottomUp { pre: vec![t], reported: rep.clone(), then: vec![], builds: 1 }); }
       }
     }
   }
@@ -253,7 +260,7 @@ fn unrelated_prelude() {
     3 => (Prog { n_res: 1, bodies: vec![vec![st(Op::Read(0, RC::Exact))], vec![st(Op::Write(0, Src::One, RC::Exact))], vec![st(Op::Write(0, Src::Zero, RC::Exact))]] },
           vec![PEvent::plain(Event::TopDown(vec![1, 0])), PEvent::plain(Event::TopDown(vec![2]))]),
     _ => (Prog { n_res: 1, bodies: vec![vec![st(Op::Read(0, RC::Exact)), Stmt { guard: Some(1), op: Op::Req(2, q) }], vec![st(Op::Req(0, q))], vec![st(Op::Req(1, q)), st(Op::Read(0, RC::Exact))]] },
-          vec![PEvent::plain(Event::TopDown(vec![2, 1])), PEvent::plain(Event::Set(0, Some(1))), PEvent::plain(Event::BottomUp { pre: vec![], reported: vec![0], then: vec![2] })]),
+          vec![PEvent::plain(Event::TopDown(vec![2, 1])), PEvent::plain(Event::Set(0, Some(1))), PEvent::plain(Event::BottomUp { pre: vec![], reported: vec![0], then: vec![2], builds: 1 })]),
   };
   let _ = run_history(&p, &path);
 }
@@ -523,7 +530,7 @@ pub fn fill_evidence(rep: &mut Report, cfg: &HistCfg, stats: &Stats, programs: &
   rep.set("unconfirmed_one_off_divergences", json!(stats.unconfirmed_divergences));
   rep.set("bounds", json!({
     "history_depth": cfg.depth, "max_roots_per_session": cfg.max_roots, "bottom_up": cfg.bottom_up, "bu_then": cfg.bu_then, "bu_pre": cfg.bu_pre,
-    "over_report": cfg.bu_over_report, "set_fail": cfg.set_fail, "crashes_per_history": cfg.crashes, "state_cap_per_program": cfg.state_cap, "wall_cap_s": cfg.wall_cap,
+    "over_report": cfg.bu_over_report, "two_bottom_up_builds_in_one_session": cfg.bu_twice, "set_fail": cfg.set_fail, "crashes_per_history": cfg.crashes, "state_cap_per_program": cfg.state_cap, "wall_cap_s": cfg.wall_cap,
   }));
   rep.set("rule", json!(rule));
   rep.set("evaluations", json!(stats.transitions));
